@@ -107,3 +107,129 @@ MODULES = {
         ],
     },
 }
+
+
+# ===========================================================================
+# Wave 2: the bodies of sample() / __init__ of the two samplers, translated into the
+# vocabulary of Model/C13_Model.v (prs / choice / split / get_clients / take / advance).
+# Expressions are matched structurally; every deviation raises Unsupported.
+
+SELF = {'self._seed': 'seed', 'self._round_num': 'round_num', 'self._num_clients': 'num_clients'}
+
+
+def _zname(e):
+  d = _safe_dotted(e)
+  if d in SELF:
+    return SELF[d]
+  if isinstance(e, ast.Constant) and isinstance(e.value, int) and not isinstance(e.value, bool):
+    return str(e.value)
+  raise Unsupported('integer attribute expected: ' + ast.dump(e)[:80])
+
+
+def _same(a, b):
+  return ast.dump(a) == ast.dump(b)
+
+
+def _nodoc(body):
+  return [s for s in body if not (isinstance(s, ast.Expr) and isinstance(s.value, ast.Constant))]
+
+
+def _assign(s):
+  if not (isinstance(s, ast.Assign) and len(s.targets) == 1 and isinstance(s.targets[0], ast.Name)):
+    raise Unsupported('expected `name = ...`: ' + ast.dump(s)[:80])
+  return s.targets[0].id, s.value
+
+
+def _split_expr(v):
+  # jax.random.split(jax.random.PRNGKey(<int>), <int>)
+  if not (isinstance(v, ast.Call) and _safe_dotted(v.func) == 'jax.random.split' and len(v.args) == 2 and not v.keywords
+          and isinstance(v.args[0], ast.Call) and _safe_dotted(v.args[0].func) == 'jax.random.PRNGKey'
+          and len(v.args[0].args) == 1 and not v.args[0].keywords):
+    raise Unsupported('expected jax.random.split(jax.random.PRNGKey(..), ..)')
+  return f'(split (KRoot {_zname(v.args[0].args[0])}) {_zname(v.args[1])})'
+
+
+def A_get_sample():
+  def emit(tree):
+    fd = find_def(tree, 'UniformGetClientSampler.sample')
+    b = _nodoc(fd.body)
+    if len(b) != 7:
+      raise Unsupported(f'UniformGetClientSampler.sample: {len(b)} statements')
+    acc, v = _assign(b[0])
+    if not (isinstance(v, ast.List) and not v.elts):
+      raise Unsupported('accumulator initialisation')
+    rs, v = _assign(b[1])
+    if not (isinstance(v, ast.Call) and _safe_dotted(v.func) == 'get_pseudo_random_state' and len(v.args) == 2
+            and not v.keywords):
+      raise Unsupported('random state')
+    prs = f'prs {_zname(v.args[0])} {_zname(v.args[1])}'
+    ids, v = _assign(b[2])
+    kw = {k.arg: k.value for k in v.keywords} if isinstance(v, ast.Call) else {}
+    if not (isinstance(v, ast.Call) and isinstance(v.func, ast.Attribute) and v.func.attr == 'choice' and
+            isinstance(v.func.value, ast.Name) and v.func.value.id == rs and len(v.args) == 1 and
+            _same(v.args[0], ast.parse('np.array(self._client_ids, dtype=object)', mode='eval').body) and
+            set(kw) == {'size', 'replace'} and isinstance(kw['replace'], ast.Constant) and kw['replace'].value is False):
+      raise Unsupported('choice(np.array(self._client_ids, dtype=object), size=.., replace=False) expected')
+    choice = f'choice {rs} (map fst fd) {_zname(kw["size"])}'
+    keys, v = _assign(b[3])
+    split = _split_expr(v)
+    loop = ast.parse(f'for i, (client_id, client_dataset) in enumerate(self._federated_data.get_clients({ids})):\n'
+                     f'  {acc}.append((client_id, client_dataset, {keys}[i]))\n').body[0]
+    if not _same(b[4], loop):
+      raise Unsupported('the loop over get_clients')
+    if not (isinstance(b[5], ast.AugAssign) and _safe_dotted(b[5].target) == 'self._round_num'):
+      raise Unsupported('round update position')
+    if not (isinstance(b[6], ast.Return) and isinstance(b[6].value, ast.Name) and b[6].value.id == acc):
+      raise Unsupported('return')
+    return ('Definition get_sample_gen (round_num : Z) : option (list (Id * D * kpath)) :=\n'
+            f'  match {prs} with None => None | Some {rs} =>\n'
+            f'  let {ids} := {choice} in\n  let {keys} := {split} in\n'
+            f'  match get_clients id_eqb fd {ids} with None => None | Some {acc} => Some (combine {acc} {keys}) end end.')
+  return emit
+
+
+def A_stream_sampler():
+  def emit(tree):
+    init = _nodoc(find_def(tree, 'UniformShuffledClientSampler.__init__').body)
+    want = ast.parse('self._shuffled_clients_iter = shuffled_clients_iter\nself._num_clients = num_clients\n'
+                     'self._round_num = start_round_num\n'
+                     'for _ in range(self._round_num):\n  for _ in range(self._num_clients):\n'
+                     '    next(self._shuffled_clients_iter)\n').body
+    if len(init) != len(want) or not all(_same(a, b) for a, b in zip(init, want)):
+      raise Unsupported('UniformShuffledClientSampler.__init__: unexpected body')
+    b = _nodoc(find_def(tree, 'UniformShuffledClientSampler.sample').body)
+    if len(b) != 5:
+      raise Unsupported('UniformShuffledClientSampler.sample: statements')
+    acc, v = _assign(b[0])
+    if not (isinstance(v, ast.List) and not v.elts):
+      raise Unsupported('accumulator initialisation')
+    keys, v = _assign(b[1])
+    split = _split_expr(v)
+    loop = ast.parse(f'for i in range(self._num_clients):\n'
+                     f'  client_id, client_dataset = next(self._shuffled_clients_iter)\n'
+                     f'  {acc}.append((client_id, client_dataset, {keys}[i]))\n').body[0]
+    if not _same(b[2], loop):
+      raise Unsupported('the loop over the client stream')
+    if not (isinstance(b[3], ast.AugAssign) and _safe_dotted(b[3].target) == 'self._round_num'):
+      raise Unsupported('round update position')
+    if not (isinstance(b[4], ast.Return) and isinstance(b[4].value, ast.Name) and b[4].value.id == acc):
+      raise Unsupported('return')
+    return ('(* __init__: round_num = start_round_num; round_num * num_clients calls of next() *)\n'
+            'Definition stream_init_gen (num_clients start_round_num : Z) : nat * Z :=\n'
+            '  let round_num := start_round_num in\n'
+            '  (Nat.iter (Z.to_nat round_num) (advance (Z.to_nat num_clients)) 0%nat, round_num).\n'
+            '(* sample() without the round update: num_clients calls of next(), i-th paired with keys[i] *)\n'
+            'Definition stream_take_gen {C} (stream : nat -> C) (num_clients : Z) (pos : nat) (round_num : Z) : list (C * kpath) * nat :=\n'
+            f'  let {keys} := {split} in\n'
+            f'  (take stream (Z.to_nat num_clients) pos {keys}, advance (Z.to_nat num_clients) pos).')
+  return emit
+
+
+MODULES['Gen_client_samplers_model'] = {
+    'src': CS,
+    'preamble': ('From FV Require Import Model.C13_Model.\nSection Gen_client_samplers_model.\n'
+                 'Context {Id D : Type} (id_eqb : Id -> Id -> bool) (prs : Z -> Z -> option Z)\n'
+                 '  (choice : Z -> list Id -> Z -> list Id) (fd : list (Id * D)) (num_clients seed : Z).\n'),
+    'postamble': 'End Gen_client_samplers_model.\n',
+    'items': [A_get_sample(), A_stream_sampler()],
+}
